@@ -476,7 +476,43 @@ func extFormatFloat(fr *frame, a []value) value {
 }
 
 func extItoa(fr *frame, a []value) value {
-	if isSym(a[0]) {
+	c := fr.i.ctx
+	if sv, ok := a[0].(*Sym); ok {
+		// Math mode, small interval: the exact decimal rendering, by case split on sign and number
+		// of digits; each digit is the term '0' + (|x| div 10^k) mod 10 (interval [48,57]).
+		if c.Mode == Math && sv.T.Lo != nil && sv.T.Hi != nil && sv.T.Lo.Cmp(big.NewInt(-99999)) >= 0 && sv.T.Hi.Cmp(big.NewInt(99999)) <= 0 {
+			b := c.B
+			zero := b.IntC64(0)
+			neg := c.Branch(b.IntCmp("<", sv.T, zero))
+			abs := sv.T
+			if neg {
+				abs = b.IntNeg(sv.T)
+				if abs.Kind == sym.TApp {
+					abs.Lo, abs.Hi = big.NewInt(0), new(big.Int).Neg(sv.T.Lo)
+				}
+			}
+			nd := 1
+			for lim := int64(10); nd < 5; nd, lim = nd+1, lim*10 {
+				if c.Branch(b.IntCmp("<", abs, b.IntC64(lim))) {
+					break
+				}
+			}
+			var out []value
+			if neg {
+				out = append(out, byte('-'))
+			}
+			pow := int64(1)
+			for k := 1; k < nd; k++ {
+				pow *= 10
+			}
+			for k := 0; k < nd; k++ {
+				d := b.IntModE(b.IntDivE(abs, b.IntC64(pow)), b.IntC64(10))
+				ch := b.IntAdd(d, b.IntC64('0'))
+				out = append(out, c.mkval(ch, types.Uint8))
+				pow /= 10
+			}
+			return mkString(out)
+		}
 		return fr.opaqueString("itoa", a[0])
 	}
 	return strconv.Itoa(int(asInt64(a[0])))
